@@ -325,6 +325,88 @@ let cmd_vresp (arg : string) : string =
            hex_of_bytes a ^ "," ^ hex_of_bytes b ^ "," ^ hex_of_bytes c) !queries))
   | _ -> failwith "vresp args"
 
+(* ---------- sign.rs ---------- *)
+(* signer <seed> <ops>: the model returns which byte strings get signed (Ed25519 itself is an
+   oracle: the orchestrator signs these with one-shot dalek and with the RFC 8032 transcription) *)
+let cmd_signer (arg : string) : string =
+  let arg = String.trim arg in
+  let seed, ops =
+    match String.index_opt arg ' ' with
+    | Some i -> (String.sub arg 0 i, String.sub arg (i + 1) (String.length arg - i - 1))
+    | None -> (arg, "") in
+  let ops = List.map (fun o -> if o = "s" then Sig else Upd (bytes_of_hex (String.sub o 2 (String.length o - 2))))
+      (split_on ',' ops) in
+  match signer_from_seed (bytes_of_hex seed) with
+  | Ok s ->
+    (* sign = identity on the message: run_signer then returns the messages themselves *)
+    let sigs = run_signer (fun _ m -> m) s ops in
+    "M=" ^ String.concat "," (List.map hex_of_bytes sigs)
+  | _ -> "PANIC"
+
+(* verify <pk> <chunks> <sig> <point 0|1> <verdict 0|1>: oracle answers supplied *)
+let cmd_verify (arg : string) : string =
+  match String.split_on_char ' ' (String.trim arg) with
+  | [pk; chunks; sg; pt; vd] ->
+    let chunks = List.map bytes_of_hex (String.split_on_char ',' chunks) in
+    (match run_verifier (fun _ _ _ -> vd = "1") (fun _ -> pt = "1") (bytes_of_hex pk) chunks (bytes_of_hex sg) with
+     | Ok b -> if b then "OK 1" else "OK 0"
+     | _ -> "PANIC")
+  | _ -> failwith "verify args"
+
+(* ---------- statistics ---------- *)
+let parse_sop (op : string) : sev =
+  let k = op.[0] in
+  let rest = String.sub op 1 (String.length op - 1) in
+  let a, n = match String.index_opt rest ':' with
+    | Some i -> (String.sub rest 0 i, String.sub rest (i + 1) (String.length rest - i - 1))
+    | None -> (rest, "0") in
+  let a = n_of_string a and n = n_of_string n in
+  match k with
+  | 'i' -> SIetfRequest a | 'c' -> SClassicRequest a | 'x' -> SInvalidRequest a | 'h' -> SHealthCheck a
+  | 'r' -> SRfcResponse (a, n) | 'k' -> SClassicResponse (a, n) | 'f' -> SFailedSend a | 't' -> SRetriedSend a
+  | _ -> failwith "bad op"
+
+let render_cs (c : cstats) : string =
+  String.concat "/" (List.map string_of_n [c.c_rfc_req; c.c_classic_req; c.c_invalid; c.c_health;
+                                           c.c_rfc_resp; c.c_classic_resp; c.c_bytes; c.c_failed; c.c_retried])
+
+let render_cmap (m : (n * cstats) list) : string =
+  let l = List.sort (fun (a, _) (b, _) -> compare (int_of_n a) (int_of_n b)) m in
+  if l = [] then "-" else String.concat ";" (List.map (fun (a, c) -> string_of_n a ^ ":" ^ render_cs c) l)
+
+let totals_of (get : kind -> n) (bytes : n) (uniq : int) : string =
+  let g k = string_of_n (get k) in
+  Printf.sprintf "T=%s,%s,%s,%s,%s,%s,%s,%s,%s V=%s R=%s U=%d"
+    (g KRfcReq) (g KClassicReq) (g KInvalid) (g KHealth) (g KRfcResp) (g KClassicResp) (string_of_n bytes)
+    (g KFailed) (g KRetried)
+    (string_of_n (N.add (get KRfcReq) (get KClassicReq)))
+    (string_of_n (N.add (get KRfcResp) (get KClassicResp))) uniq
+
+let cmd_stats (arg : string) : string =
+  match String.split_on_char ' ' (String.trim arg) with
+  | kind :: limit :: rest ->
+    let ops = List.map parse_sop (split_on ',' (String.concat " " rest)) in
+    if kind = "pc" then begin
+      let st, _ = pc_run (pc_new (nat_of_int (int_of_string limit))) ops in
+      Printf.sprintf "%s O=%s C=%s"
+        (totals_of (fun k -> pc_total k st) (pc_total_bytes st) (List.length st.pc_clients))
+        (string_of_n st.pc_overflows) (render_cmap st.pc_clients)
+    end else begin
+      let c = agg_run ops in
+      Printf.sprintf "%s O=0 C=-" (totals_of (fun k -> cs_get k c) c.c_bytes 0)
+    end
+  | _ -> failwith "stats args"
+
+let cmd_merge (arg : string) : string =
+  let arg = String.trim arg in
+  let limit, segs =
+    match String.index_opt arg ' ' with
+    | Some i -> (String.sub arg 0 i, String.sub arg (i + 1) (String.length arg - i - 1))
+    | None -> (arg, "") in
+  let segs = List.map (fun s -> List.map parse_sop (split_on ',' s)) (String.split_on_char '|' segs) in
+  let snaps = List.map (fun evs -> (fst (pc_run (pc_new (nat_of_int (int_of_string limit))) evs)).pc_clients) segs in
+  "C=" ^ render_cmap (rep_receive [] snaps)
+
 let model_srv : server option ref = ref None
 
 let stats_totals (evs : sev list) : string =
@@ -399,6 +481,10 @@ let dispatch (line : string) : string =
   | "classify" -> cmd_classify rest
   | "srep" -> cmd_srep rest
   | "serve" -> cmd_serve rest
+  | "signer" -> cmd_signer rest
+  | "stats" -> cmd_stats rest
+  | "merge" -> cmd_merge rest
+  | "verify" -> cmd_verify rest
   | "wfspec" -> cmd_wfspec rest
   | "vresp" -> cmd_vresp rest
   | "merklespec" -> cmd_merkle_spec rest
